@@ -9,4 +9,5 @@ MODULES = [
     "odxlink",
     "compu",
     "hierarchy",
+    "attribution",
 ]
